@@ -75,6 +75,7 @@ class Scalar (K : Type) where
   div : K → K → K
   /-- `Complex64::powc` -/
   pow : K → K → K
+  /-- what prefix minus evaluates to: `negate(value) = 0 - value` (expression/mod.rs:424) -/
   neg : K → K
   sin : K → K
   cos : K → K
@@ -206,7 +207,7 @@ def eval (ρ : VarEnv K) (μ : MemEnv K) : Expr K → Except EvalError K
     match eval ρ μ e with
     | .error err => .error err
     | .ok v => match op with
-      | .minus => .ok (Scalar.neg v)
+      | .minus => .ok (Scalar.neg v)   -- `Ok(negate(value))`
       | .plus => .ok v
   | .var x =>
     match ρ x with
